@@ -339,7 +339,7 @@ func c04Store(rc *RuleCtx) {
 		ok := false
 		why := "Symlink does not create the link node through createSymlink"
 		eachCall(f, func(ci ssa.CallInstruction) {
-			if fn := calleeFunc(ci); fn != nil && fn.Name() == "createSymlink" {
+			if fn := calleeFunc(ci); fn != nil && nm(fn) == "createSymlink" {
 				args := callArgs(ci)
 				c, _ := resultOfCall(resolve1(args[len(args)-1]))
 				if c != nil && calleeFunc(c) != nil && calleeFunc(c).Name() == "Clean" {
